@@ -94,6 +94,11 @@ def builtin_fn(ex, st, nm, e, cx, k):
         if len(args) == 2:
             def f(st, vs):
                 s_, b = vs
+                if s_.ty.kind != 'str':
+                    try:
+                        s_ = ex.coerce(s_, STR)
+                    except Exception:  # noqa
+                        raise VCError(f'int(x, base) of {s_.ty!r} outside subset')
                 bs = z3.simplify(b.z)
                 if not z3.is_int_value(bs):
                     raise VCError('int(s, base) with symbolic base')
